@@ -25,7 +25,7 @@ REQ_CLOSED = REQ + ["Imports.Import", "Imports.ImportSet", "Imports.Format", "Im
 warnings.simplefilter("ignore", SyntaxWarning)
 
 ANCHORS = ["pyflyby._imports2s:SourceToSourceFileImportsTransformation.add_import",
-           "pyflyby._cmdline:action_print", "pyflyby._cmdline:parse_args",
+           "pyflyby._cmdline:action_print", "pyflyby._cmdline:parse_args", "pyflyby._log:_PyflybyHandler.emit",
            "pyflyby._imports2s:SourceToSourceFileImportsTransformation.preprocess",
            "pyflyby._imports2s:SourceToSourceFileImportsTransformation.pretty_print",
            "pyflyby._imports2s:SourceToSourceFileImportsTransformation.insert_new_blocks_after_comments",
@@ -37,7 +37,7 @@ ANCHORS = ["pyflyby._imports2s:SourceToSourceFileImportsTransformation.add_impor
            "pyflyby._imports2s:transform_imports", "pyflyby._imports2s:canonicalize_imports",
            "pyflyby._imports2s:reformat_import_statements"]
 
-TOOLS = ["reformat", "reformat_str", "reformat_ft", "tidy", "star", "broken", "transform", "canonicalize", "transform_map", "canonicalize_map", "cli_reformat", "cli_tidy", "cli_multi", "cli_pyproject"]
+TOOLS = ["reformat", "reformat_str", "reformat_ft", "tidy", "star", "broken", "transform", "canonicalize", "transform_map", "canonicalize_map", "cli_reformat", "cli_tidy", "cli_multi", "cli_pyproject", "cli_streams"]
 
 # internal errors that belong to C03 (block selection / import-set algebra; F23, F24): counted, not judged here
 C03_EXCEPTIONS = {"LineNumberAmbiguousError", "ConflictingImportsError", "OutputUnparsable"}
@@ -153,6 +153,10 @@ def gen_cases(ctx, n, ncorpus=0):
                   "use_dir": False, "script": "reformat-imports", "sp": [1, 1], "params": {}, "db": 0, "flags": [True, True, True]})
     cases.append({"kind": "witness", "tag": "multi2", "tool": "cli_multi", "src": "import os", "srcs": ["import os", "y = 2"],
                   "use_dir": True, "script": "tidy-imports", "sp": [1, 1], "params": {}, "db": 0, "flags": [True, True, True]})
+    cases.append({"kind": "witness", "tag": "streams1", "tool": "cli_streams", "level": "INFO",
+                  "src": "import os, sys\nprint(sys, np)\n", "sp": [1, 1], "params": {}, "db": 0, "flags": [True, True, True]})
+    cases.append({"kind": "witness", "tag": "streams2", "tool": "cli_streams", "level": "DEBUG",
+                  "src": "import json\nx = undefined_q\n", "sp": [1, 1], "params": {}, "db": 0, "flags": [True, True, True]})
     cases.append({"kind": "witness", "tag": "pyproj1", "tool": "cli_pyproject",
                   "src": "import sys, oldmod.x\nimport json\nv = os.sep  # oldmod.x\ns = 'oldmod.x'\nprint(oldmod.x, sys)\n",
                   "cli_flags": {"add_missing": False, "remove_unused": False, "add_mandatory": False, "canonicalize": False},
@@ -181,6 +185,12 @@ def gen_cases(ctx, n, ncorpus=0):
             srcs = [r.choice(["", "x = 1", "import os\nprint(os)", G.gen_compilable(r, max_elems=3, final_newline_p=.5)]) for _ in range(r.randint(2, 4))]
             cases.append({"kind": "gen", "i": i, "tool": "cli_multi", "src": srcs[0], "srcs": srcs, "use_dir": r.random() < .35,
                           "script": r.choice(["reformat-imports", "tidy-imports"]), "sp": [1, 1], "params": {}, "db": 0, "flags": [True, True, True]})
+            continue
+        if r.random() < .02:
+            body = G.gen_compilable(r, max_elems=3, import_bias=.2)
+            cases.append({"kind": "gen", "i": i, "tool": "cli_streams", "level": r.choice(["INFO", "INFO", "DEBUG", "WARNING"]),
+                          "src": "import json, sys\n" + body + ("" if body.endswith("\n") else "\n") + "print(sys, os.sep, np, undefined_name_q)\n",
+                          "sp": [1, 1], "params": {}, "db": 0, "flags": [True, True, True]})
             continue
         if r.random() < .025:
             flags = {k: r.random() < .5 for k in ("add_missing", "remove_unused", "add_mandatory", "canonicalize")}
@@ -286,6 +296,9 @@ def impl_case(c):
                 elif tool == "cli_pyproject":
                     res = None
                     out.update(run_cli_pyproject(c))
+                elif tool == "cli_streams":
+                    res = None
+                    out.update(run_cli_streams(c))
                 else:
                     block = PythonBlock(src, startpos=tuple(c["sp"]))
                     if tool == "reformat":
@@ -400,6 +413,59 @@ def run_cli_multi(c):
         singles = [_cli(c["script"], ["--print", pth], d) for pth in paths]
         multi = _cli(c["script"], ["--print"] + ([sub] if c["use_dir"] else paths), d)
         return {"out": singles[0], "singles": singles, "multi": multi}
+    finally:
+        shutil.rmtree(d, ignore_errors=True)
+
+
+def run_cli_streams(c):
+    """tidy-imports --print with messages being logged (INFO level: removed unused / added / warnings),
+    under different set-ups of the standard streams; stdout must always be exactly the rewritten program"""
+    import os
+    import shutil
+    import subprocess
+    import sys
+    import tempfile
+    d = tempfile.mkdtemp(prefix="verif-c01-")
+    try:
+        db = os.path.join(d, "db.py")
+        with open(db, "w") as f:
+            f.write("import os\nimport numpy as np\nfrom pkg import foo, bar\n")
+        path = os.path.join(d, "m.py")
+        with open(path, "w", encoding="utf-8", newline="") as f:
+            f.write(c["src"])
+        script = os.path.join(os.environ["VERIF_REPO"], "bin", "tidy-imports")
+        env = dict(os.environ, PYFLYBY_PATH=db, PYFLYBY_LOG_LEVEL=c.get("level", "INFO"))
+        outs, errs = {}, {}
+        for variant in ["baseline", "stderr_closed", "stderr_devfull", "stdin_closed", "stdout_file", "all_closed_but_stdout"]:
+            kw = {"stdin": subprocess.DEVNULL, "stdout": subprocess.PIPE, "stderr": subprocess.PIPE}
+            pre = None
+            fh = None
+            if variant == "stderr_closed":
+                kw["stderr"] = None
+                pre = lambda: os.close(2)
+            elif variant == "stderr_devfull":
+                fh = open("/dev/full", "w")
+                kw["stderr"] = fh
+            elif variant == "stdin_closed":
+                kw["stdin"] = None
+                pre = lambda: os.close(0)
+            elif variant == "stdout_file":
+                fh = open(os.path.join(d, "out.txt"), "wb")
+                kw["stdout"] = fh
+            elif variant == "all_closed_but_stdout":
+                kw["stdin"] = None
+                kw["stderr"] = None
+                pre = lambda: (os.close(0), os.close(2))
+            p = subprocess.run([sys.executable, script, "--print", path], timeout=50, env=env, cwd=d, preexec_fn=pre, **kw)
+            if fh is not None:
+                fh.close()
+            if variant == "stdout_file":
+                with open(os.path.join(d, "out.txt"), "rb") as f:
+                    outs[variant] = f.read().decode("utf-8", "replace")
+            else:
+                outs[variant] = p.stdout.decode("utf-8", "replace")
+            errs[variant] = [p.returncode, (p.stderr or b"").decode("utf-8", "replace")[-300:] if kw["stderr"] == subprocess.PIPE else ""]
+        return {"out": outs["baseline"], "variants": outs, "status": errs}
     finally:
         shutil.rmtree(d, ignore_errors=True)
 
@@ -864,6 +930,23 @@ def compare_one(ctx, c, im, mvs):
             r1 = frame_oracle(s1, o1, None)
             if r1 is not None and r1[0] == "frame":
                 ctx.violation("reformat_frame", short(c), r1[1])
+        ctx.count(short(c), True)
+        return
+    if c["tool"] == "cli_streams":
+        base = im["variants"]["baseline"]
+        if im["status"]["baseline"][0] != 0:
+            ctx.bump("cli_streams_baseline_failed(C03)")
+            ctx.count(short(c), False)
+            return
+        if "[PYFLYBY]" not in im["status"]["baseline"][1]:
+            ctx.bump("cli_streams_no_message_logged")
+        r1 = frame_oracle(src, base, None)
+        if r1 is not None and r1[0] in ("frame", "unparsable"):
+            ctx.violation("edit_frame/insert_frame", short(c), "--print output (baseline streams): %s" % r1[1])
+        for variant, text in sorted(im["variants"].items()):
+            if text != base:
+                ctx.violation("edit_frame/insert_frame", short(c), "tidy-imports --print with %s: stdout is not the rewritten program: %r (expected %r)"
+                              % (variant, text[:240], base[:240]))
         ctx.count(short(c), True)
         return
     if c["tool"] == "cli_pyproject":
